@@ -18,6 +18,16 @@ package main
 // source of its answer padding, whether it sends dh_prime / g_a minimally, further fingerprints (before
 // and after its own).
 //
+// Several exchanges in ONE operation (what a process that talks to more than one server, or recreates its
+// client, does — and a replay of the operation replays all of it):
+//
+//   c06.seq <tag> <keyobj> <k> { <store> <the 18 tokens of a c06.hs after its tag> } x k
+//
+// <keyobj>: how the caller holds the public key over the exchanges (hsKeyObj: fresh | slot | setn);
+// <store>: how the client's session storage says "nothing stored" (hsStore.Mode: notfound | nil | fail). Every
+// exchange has its own conformant server with its own RSA key. Result: the results of the exchanges, " | " between
+// them. A storage that cannot be read (fail) must make NewMTProto give up: res=err:new, nothing sent or stored.
+//
 // Result line (both sides): outcome, TL bodies of the client's three requests, number of encrypted
 // frames seen before CreateConnection returned, client auth key / salt / encrypted / service mode,
 // every session Store; then the server's view: finished or refused, its auth key, salt and the
@@ -35,7 +45,7 @@ import (
 )
 
 var (
-	c06Last *hsRun
+	c06Last []*hsRun // the runs of the last operation, one per exchange
 )
 
 func c06BigHex(x *big.Int) string { return hexD(x.Bytes()) }
@@ -188,11 +198,49 @@ func c06ForceCorner(r *Rand, c *hsCase, field string, z int) bool {
 
 var c06Fields = []string{"nonce", "server_nonce", "new_nonce", "new_nonce_hash1", "rsa", "g_a", "g_b", "g_ab"}
 
+// c06SeqOp: several exchanges as one operation.
+func c06SeqOp(tag, keyobj string, stores []string, cs []*hsCase) string {
+	parts := []string{"c06.seq", tag, keyobj, strconv.Itoa(len(cs))}
+	for i, c := range cs {
+		parts = append(parts, stores[i], strings.Join(strings.Fields(c.op("x"))[2:], " "))
+	}
+	return strings.Join(parts, " ")
+}
+
 func c06Gen(g *G) {
 	r := g.R
-	key := hsKeyGen(r)
+	// a pool of server keys, used in turn: consecutive exchanges of this process never use the same key twice
+	// running (a conformant server is ANY conformant server, also after the client has talked to another one)
+	pool := hsKeyPool(r, g.N(3, 4))
+	turn := 0
+	next := func() *rsa.PrivateKey {
+		turn++
+		return pool[turn%len(pool)]
+	}
+	key := next()
+	// (a0) first of all, sequences in one operation: other keys one after another, the caller's key object kept
+	// or not, and the three ways a session storage says "nothing stored"
+	for i, ko := range hsKeyObjModes {
+		cs := []*hsCase{hsRandomCase(r, pool[i%len(pool)]), hsRandomCase(r, pool[(i+1)%len(pool)]), hsRandomCase(r, pool[(i+2)%len(pool)])}
+		if ko != "fresh" {
+			cs[2] = hsRandomCase(r, pool[i%len(pool)]) // … and back to the first key
+		}
+		g.Emit(c06SeqOp("seq:keys-"+ko, ko, []string{"notfound", "notfound", "notfound"}, cs), "honest", "sequence", "sequence:keyobj="+ko)
+	}
+	for _, sm := range hsStoreModes {
+		g.Emit(c06SeqOp("seq:store-"+sm, "fresh", []string{sm}, []*hsCase{hsRandomCase(r, next())}), "honest", "sequence", "store="+sm)
+	}
+	{
+		var cs []*hsCase
+		stores := []string{"nil", "fail", "notfound", "nil"}
+		for range stores {
+			cs = append(cs, hsRandomCase(r, next()))
+		}
+		g.Emit(c06SeqOp("seq:stores-mixed", hsKeyObjModes[r.Intn(len(hsKeyObjModes))], stores, cs), "honest", "sequence", "store=mixed")
+	}
 	// (a) honest exchanges: every g, fixed-width and minimal integers, extra fingerprints
 	for gv := 2; gv <= 7; gv++ {
+		key = next()
 		c := hsRandomCase(r, key)
 		c.S.G = int32(gv)
 		c.S.Minimal = gv%2 == 1
@@ -201,7 +249,7 @@ func c06Gen(g *G) {
 	// (a2) a server with several keys: the client's one alone, last, first, in the middle of the list, between
 	// several; a neighbour that differs from it in one bit / is its byte-reversal (the client must name ITS
 	// key's fingerprint in req_DH_params, wherever it stands)
-	own := hsFingerprint(&key.PublicKey)
+	own := uint64(0)
 	for _, pos := range []struct {
 		name          string
 		before, after []uint64
@@ -212,16 +260,38 @@ func c06Gen(g *G) {
 		{"middle", []uint64{r.U64()}, []uint64{r.U64()}},
 		{"first-of-many", nil, []uint64{r.U64(), r.U64(), r.U64()}},
 		{"among-many", []uint64{r.U64(), r.U64()}, []uint64{r.U64(), r.U64(), r.U64()}},
-		{"near-miss-neighbours", []uint64{own ^ 1}, []uint64{own ^ 1<<63, bits.ReverseBytes64(own)}},
+		{"near-miss-neighbours", nil, nil},
+		{"other-keys-of-the-pool", nil, nil},
 		{"zero-and-max-neighbours", []uint64{0}, []uint64{1<<64 - 1}},
 	} {
+		key = next()
+		own = hsFingerprint(&key.PublicKey)
 		c := hsRandomCase(r, key)
 		c.S.ExtraFps, c.S.LaterFps = pos.before, pos.after
+		switch pos.name {
+		case "near-miss-neighbours":
+			c.S.ExtraFps, c.S.LaterFps = []uint64{own ^ 1}, []uint64{own ^ 1<<63, bits.ReverseBytes64(own)}
+		case "other-keys-of-the-pool":
+			// the server holds all the keys of the pool and lists them all; the client has this one
+			c.S.ExtraFps, c.S.LaterFps = nil, nil
+			mine := false
+			for _, k := range pool {
+				switch {
+				case k == key:
+					mine = true
+				case mine:
+					c.S.LaterFps = append(c.S.LaterFps, hsFingerprint(&k.PublicKey))
+				default:
+					c.S.ExtraFps = append(c.S.ExtraFps, hsFingerprint(&k.PublicKey))
+				}
+			}
+		}
 		g.Emit(c.op("honest:fingerprint-"+pos.name), "honest", "fingerprints", fmt.Sprintf("fingerprints:before=%d,after=%d", len(pos.before), len(pos.after)))
 	}
 	// (b) every field through its leading-zero corners
 	for _, f := range c06Fields {
 		for z := 0; z <= 2; z++ {
+			key = next()
 			c := hsRandomCase(r, key)
 			if !c06ForceCorner(r, c, f, z) {
 				g.Extra["corner-not-forced:"+f+":"+strconv.Itoa(z)] = true
@@ -232,54 +302,46 @@ func c06Gen(g *G) {
 	}
 	// (c) all-zero / all-one edge values of the free secrets
 	{
-		c := hsRandomCase(r, key)
+		c := hsRandomCase(r, next())
 		c.D.Nonce = make([]byte, 16)
 		g.Emit(c.op("edge:nonce-zero"), "edge")
-		c = hsRandomCase(r, key)
+		c = hsRandomCase(r, next())
 		c.S.ServerNonce = make([]byte, 16)
 		g.Emit(c.op("edge:server_nonce-zero"), "edge")
-		c = hsRandomCase(r, key)
+		c = hsRandomCase(r, next())
 		c.D.NewNonce = make([]byte, 32)
 		c.D.NewNonce[31] = 1
 		g.Emit(c.op("edge:new_nonce-one"), "edge")
-		c = hsRandomCase(r, key)
+		c = hsRandomCase(r, next())
 		c.S.P, c.S.Q = 65537, 4294967291
 		g.Emit(c.op("edge:pq-unbalanced"), "edge")
-		c = hsRandomCase(r, key)
+		c = hsRandomCase(r, next())
 		c.S.P, c.S.Q = 4294967279, 4294967291
 		g.Emit(c.op("edge:pq-largest"), "edge")
 	}
-	// (d) more honest exchanges with a second key
+	// (d) more honest exchanges, the keys of the pool in turn; one in eight as a short sequence with a storage mode
 	n := g.N(4, 2000)
-	key2 := key
-	if g.Thorough() {
-		key2 = hsKeyGen(r)
-	}
 	for i := 0; i < n; i++ {
-		k := key
-		if i%2 == 1 {
-			k = key2
-		}
-		c := hsRandomCase(r, k)
+		c := hsRandomCase(r, next())
 		// the server's own fingerprint anywhere in the list it offers
 		if n := len(c.S.ExtraFps); n > 0 {
 			cut := r.Intn(n + 1)
 			c.S.ExtraFps, c.S.LaterFps = c.S.ExtraFps[:cut], append([]uint64{}, c.S.ExtraFps[cut:]...)
 		}
+		if i%8 == 7 {
+			sm := hsStoreModes[r.Intn(len(hsStoreModes))]
+			ko := hsKeyObjModes[r.Intn(len(hsKeyObjModes))]
+			g.Emit(c06SeqOp("seq:random", ko, []string{sm, "notfound"}, []*hsCase{c, hsRandomCase(r, next())}), "honest", "sequence", "store="+sm, "sequence:keyobj="+ko)
+			continue
+		}
 		g.Emit(c.op("honest:random"), "honest", fmt.Sprintf("fingerprints:before=%d,after=%d", len(c.S.ExtraFps), len(c.S.LaterFps)))
 	}
 }
 
-func c06Exec(op []string) string {
-	c06Last = nil
-	if len(op) == 0 || op[0] != "c06.hs" {
-		return "bad-op"
-	}
-	c, ok := c06Parse(op)
-	if !ok {
-		return "bad-op"
-	}
-	run := hsExchange(&c.D, &c.S.Key.PublicKey, &c.S, nil, true)
+// c06One: one exchange of the real client (its session storage in the given mode, configured with the key
+// object pub) with a conformant server holding c.S.
+func c06One(c *hsCase, storeMode string, pub *rsa.PublicKey) (*hsRun, string) {
+	run := hsExchangeOn(storeMode, &c.D, pub, &c.S, nil, true)
 	if len(run.Srv.Enc) > 0 && run.Srv.AuthKey != nil {
 		salt, body, why := hsOpenClientFrame(run.Srv.AuthKey, run.Srv.Enc[0])
 		if why != "" {
@@ -288,12 +350,74 @@ func c06Exec(op []string) string {
 			run.FirstEnc = fmt.Sprintf("readable salt=%d body=%s", salt, hexD(body))
 		}
 	}
-	c06Last = run
 	st := "refused"
 	if run.Srv.Done {
 		st = "done"
 	}
-	return hsResultLine(run) + fmt.Sprintf(" srv=%s skey=%s ssalt=%d shash=%s", st, showBytes(run.Srv.AuthKey), run.Srv.Salt, hexD(run.Srv.HashSent))
+	return run, hsResultLine(run) + fmt.Sprintf(" srv=%s skey=%s ssalt=%d shash=%s", st, showBytes(run.Srv.AuthKey), run.Srv.Salt, hexD(run.Srv.HashSent))
+}
+
+type c06Step struct {
+	store string
+	c     *hsCase
+}
+
+// c06ParseSeq: the exchanges of a c06.seq operation.
+func c06ParseSeq(op []string) (keyobj string, steps []c06Step, ok bool) {
+	if len(op) < 4 || op[0] != "c06.seq" {
+		return "", nil, false
+	}
+	k, err := strconv.Atoi(op[3])
+	if err != nil || k < 1 || len(op) != 4+19*k {
+		return "", nil, false
+	}
+	keyobj = op[2]
+	if keyobj != "fresh" && keyobj != "slot" && keyobj != "setn" {
+		return "", nil, false
+	}
+	for i := 0; i < k; i++ {
+		part := op[4+19*i : 4+19*(i+1)]
+		if part[0] != "notfound" && part[0] != "nil" && part[0] != "fail" {
+			return "", nil, false
+		}
+		c, ok := c06Parse(append([]string{"c06.hs", "x"}, part[1:]...))
+		if !ok {
+			return "", nil, false
+		}
+		steps = append(steps, c06Step{part[0], c})
+	}
+	return keyobj, steps, true
+}
+
+func c06Exec(op []string) string {
+	c06Last = nil
+	if len(op) == 0 {
+		return "bad-op"
+	}
+	switch op[0] {
+	case "c06.hs":
+		c, ok := c06Parse(op)
+		if !ok {
+			return "bad-op"
+		}
+		run, line := c06One(c, "notfound", &c.S.Key.PublicKey)
+		c06Last = []*hsRun{run}
+		return line
+	case "c06.seq":
+		keyobj, steps, ok := c06ParseSeq(op)
+		if !ok {
+			return "bad-op"
+		}
+		ko := &hsKeyObj{Mode: keyobj}
+		var lines []string
+		for _, st := range steps {
+			run, line := c06One(st.c, st.store, ko.next(&st.c.S.Key.PublicKey))
+			c06Last = append(c06Last, run)
+			lines = append(lines, line)
+		}
+		return strings.Join(lines, " | ")
+	}
+	return "bad-op"
 }
 
 // c06Judge: the property on the real client's result, from the server's own values only.
@@ -301,13 +425,41 @@ func c06Judge(op []string, out string) string {
 	if out == "bad-op" {
 		return ""
 	}
-	run := c06Last
-	if run == nil {
+	runs := c06Last
+	if len(runs) == 0 {
 		return "no run recorded"
 	}
-	c, _ := c06Parse(op)
+	if op[0] == "c06.hs" {
+		return strings.Join(c06JudgeRun(runs[0], "notfound"), "; ")
+	}
+	keyobj, steps, ok := c06ParseSeq(op)
+	if !ok || len(steps) != len(runs) {
+		return "no run recorded"
+	}
+	var bad []string
+	for i, st := range steps {
+		for _, b := range c06JudgeRun(runs[i], st.store) {
+			bad = append(bad, fmt.Sprintf("exchange %d of %d in this process (server key %s…, key object %s, session storage says %q): %s",
+				i+1, len(steps), hexD(st.c.S.Key.N.Bytes()[:4]), keyobj, st.store, b))
+		}
+	}
+	return strings.Join(bad, "; ")
+}
+
+func c06JudgeRun(run *hsRun, storeMode string) []string {
 	var bad []string
 	add := func(f string, a ...interface{}) { bad = append(bad, fmt.Sprintf(f, a...)) }
+	if storeMode == "fail" {
+		// the storage could not be read: whether a session exists is unknown, NewMTProto must give up — no client,
+		// no connection, nothing stored (above all no key exchange whose result would overwrite an existing session)
+		if run.Outcome != "err:new" {
+			add("the session storage's Load failed, but NewMTProto did not: the run ended with %s", run.Outcome)
+		}
+		if len(run.Stores) != 0 || len(run.Srv.Plain) != 0 || len(run.Srv.Enc) != 0 {
+			add("the session storage's Load failed, yet %d session(s) were stored and %d frame(s) sent", len(run.Stores), len(run.Srv.Plain)+len(run.Srv.Enc))
+		}
+		return bad
+	}
 	if run.Outcome != "ok" {
 		add("the exchange with a conformant server did not complete: %s (%s)", run.Outcome, run.ErrText)
 	}
@@ -315,7 +467,7 @@ func c06Judge(op []string, out string) string {
 		add("the server had to refuse a request: %s", run.Srv.Reject)
 	}
 	if !run.Srv.Done {
-		add("the server never reached dh_gen_ok")
+		add("the server never reached dh_gen_ok (it saw %d unencrypted request(s); the client holds a key of %d bytes, encrypted=%v)", len(run.Srv.Plain), len(run.AuthKey), run.Enc)
 	} else {
 		if len(run.AuthKey) != 256 {
 			add("client auth key has %d bytes, not 256", len(run.AuthKey))
@@ -360,8 +512,7 @@ func c06Judge(op []string, out string) string {
 	if run.Overrun > 0 {
 		add("the client drew %d random bytes more than nonce, new_nonce and one DH exponent", run.Overrun)
 	}
-	_ = c
-	return strings.Join(bad, "; ")
+	return bad
 }
 
 func init() {
